@@ -128,6 +128,7 @@ func cmdCheck(args []string) {
 	}
 	start := time.Now()
 	setup(*repo)
+	recoverContractErrors = true
 	pset := map[string]bool{*prop: true}
 	baseline := loadBaseline(*prop)
 	everSeen := loadBaseline(*prop + ".all")
@@ -341,6 +342,53 @@ func cmdCheck(args []string) {
 			}
 		}
 	}
+	// a function whose contract can no longer be evaluated against its code (a clause names a
+	// variable, field or loop that the changed code does not have): the clauses proved for it on
+	// the unchanged tree no longer hold of this code, and each is reported as failed
+	for _, r := range results {
+		if (r.ContractErr == "" && r.Unsupported == "") || baseline == nil {
+			continue
+		}
+		why, status := r.ContractErr, "contract-no-longer-applies"
+		if why == "" {
+			// the changed body uses a construct outside the verified subset: the obligations that were
+			// proved for this function on the unchanged tree can no longer be generated, let alone proved
+			why, status = "function is outside the verified subset now: "+r.Unsupported, "out-of-reach"
+		}
+		var names []string
+		for n := range baseline {
+			if seen[n] {
+				continue
+			}
+			if strings.Contains(n, "."+r.Name+"[") || strings.HasSuffix(n, "."+r.Name) || strings.Contains(n, "."+r.Name+"_") || strings.Contains(n, "."+r.Name+".") || strings.Contains(n, "."+r.Name+"#") {
+				names = append(names, n)
+			}
+		}
+		if sp := lookupSpec(r.Fn); sp != nil {
+			for _, l := range specLabels(sp) {
+				for n := range baseline {
+					if !seen[n] && (n == l || strings.HasPrefix(n, l+"#") || strings.HasPrefix(n, l+"[")) {
+						names = append(names, n)
+					}
+				}
+			}
+		}
+		sort.Strings(names)
+		for i, n := range names {
+			if i > 0 && names[i-1] == n {
+				continue
+			}
+			seen[n] = true
+			total++
+			violations++
+			dir := filepath.Join("/verif/replay", *prop)
+			os.MkdirAll(dir, 0o755)
+			path := filepath.Join(dir, sanitize(n)+".txt")
+			os.WriteFile(path, []byte(fmt.Sprintf("obligation: %s\nproperty: %s\nfunction: %s\nstatus: the contract of this function can no longer be evaluated against its code, so the clause proved on the unchanged tree does not hold of the changed code\nverifier output: %s\nno counterexample: no-failing-input-found\n", n, *prop, r.Name, why)), 0o644)
+			fmt.Printf("VIOLATION property=%s replay=%s obligation=%s status=%s no-failing-input-found\n", *prop, path, n, status)
+			evs = append(evs, evidenceObl{Name: n, Status: status + ": " + why, Func: r.Name})
+		}
+	}
 	// baseline obligations that no longer exist: report (not an alarm: names follow the source text)
 	var missing []string
 	for n := range baseline {
@@ -409,6 +457,27 @@ func cmdCheck(args []string) {
 	if violations > 0 {
 		os.Exit(1)
 	}
+}
+
+// specLabels: every label of the contract of a function (function clauses and loop clauses).
+func specLabels(sp *FuncSpec) []string {
+	var out []string
+	add := func(cs []*Clause) {
+		for _, c := range cs {
+			out = append(out, c.Labels...)
+		}
+	}
+	add(sp.Requires)
+	add(sp.Ensures)
+	add(sp.Preserves)
+	for _, l := range specs.Loops {
+		if l.Fn == sp.Name {
+			add(l.Invariants)
+			add(l.Exits)
+			add(l.BackEdges)
+		}
+	}
+	return out
 }
 
 func maxInt(a, b int) int {
